@@ -12,6 +12,11 @@ Tie:      the same frames are run through the REAL predictors (TopDownPredictor,
           detections are returned for which (frame_idx, video_idx) in which order; the
           NaN-padded (batch, max_instances) table of CentroidCrop(return_crops=False) is
           compared as well.
+          Round 4: coq/theories/C12/Flat.v `frun` — the bottom-up model (CBu: per-sample peak split of
+          _generate_cms_peaks = out["peaks"][b] with return_paf_graph, LabeledFrame records after the all-NaN drop
+          and the max_instances sort/slice; CBox: box_sample_inds handed to crop_bboxes) and the single-instance
+          model (CSi: find_global_peaks flatten / valid_idx / gather / scatter / reshape, records, valid_idx handed
+          to crop_bboxes) are evaluated against the real models on every run as well.
 Oracle:   the property itself on the implementation's outputs: per-frame outputs equal
           across batch compositions, indices = the frame the pixels came from, empty
           frames yield nothing, max_instances keeps the highest-scoring instances.
@@ -247,7 +252,26 @@ def run_once(c, mods, sc, order, batch, max_instances):
                    refinement=c["refinement"], max_instances=max_instances)
         pred, st = S.build_bottomup_predictor(mods, sc, cfg)
         logs = st.log
-    frames, raw, flags = S.run_predictor(pred, "LabelsReader", video, labels)
+    # crop_bboxes as called by find_global_peaks / find_local_peaks (the name is looked up in peak_finding at call time;
+    # topdown.py holds its own binding and is not affected): which entries of the (samples*channels) maps are cropped
+    calls = []
+    if c["kind"] != "topdown":
+        from sleap_nn.inference import peak_finding as PF
+        if c["kind"] == "bottomup":
+            pred.inference_model.return_paf_graph = True      # out["peaks"], out["peak_channel_inds"] per sample
+        orig_crop = PF.crop_bboxes
+
+        def rec_crop(images, bboxes, sample_inds):
+            calls.append((len(logs), int(images.shape[0]), [int(i) for i in sample_inds.tolist()]))
+            return orig_crop(images, bboxes, sample_inds)
+
+        PF.crop_bboxes = rec_crop
+        try:
+            frames, raw, flags = S.run_predictor(pred, "LabelsReader", video, labels)
+        finally:
+            PF.crop_bboxes = orig_crop
+    else:
+        frames, raw, flags = S.run_predictor(pred, "LabelsReader", video, labels)
     back = {w: f for f, w in zip(order, where)}
     records = []
     for vi, fi, insts in frames:
@@ -276,7 +300,18 @@ def run_once(c, mods, sc, order, batch, max_instances):
         entries.append([(int(f), int(v), float(e), int(hw[0]), int(hw[1]))
                         for f, v, e, hw in zip(np.asarray(ex["frame_idx"]).ravel(), np.asarray(ex["video_idx"]).ravel(),
                                                np.asarray(ex["eff_scale"]).ravel(), osz)])
-    return {"records": records, "pixel_fids": pix, "where": dict(zip(order, where)), "n_raw": len(raw), "entries": entries}
+    out = {"records": records, "pixel_fids": pix, "where": dict(zip(order, where)), "n_raw": len(raw), "entries": entries,
+           "back": back, "crop_calls": calls}
+    # per returned dictionary: [(frame_idx, video_idx)] and, bottom-up, the per-sample peak split of _generate_cms_peaks
+    out["dicts"] = []
+    for ex in raw:
+        import numpy as np
+        d = {"keys": [(int(v), int(f)) for f, v in zip(np.asarray(ex["frame_idx"]).ravel(), np.asarray(ex["video_idx"]).ravel())]}
+        if c["kind"] == "bottomup":
+            d["peaks"] = [(np.asarray(pk, dtype=np.float64).reshape(-1, 2), np.asarray(ch).ravel().astype(int))
+                          for pk, ch in zip(ex["peaks"], ex["peak_channel_inds"])]
+        out["dicts"].append(d)
+    return out
 
 
 def canon(insts):
@@ -307,8 +342,10 @@ def per_frame(run_out):
 
 
 # ------------------------------------------------------------------ the property, executable
-def oracle(c, runs):
-    """runs: dict name -> run_once output.  Returns list of reasons."""
+def oracle(c, runs, f62=None):
+    """runs: dict name -> run_once output.  Returns list of reasons.  Failures that fall under the exact selector of
+    finding F62 (single-instance model: an empty frame yields one all-NaN instance) are appended to `f62` instead
+    (when a list is given)."""
     fails = []
     n = len(c["frames"])
     ref = per_frame(runs["ref"])          # one by one, max_instances None
@@ -345,9 +382,13 @@ def oracle(c, runs):
         got = per_frame(r)
         for fid, animals in enumerate(c["frames"]):
             if not animals and got.get(fid):        # nothing in the frame: the networks' maps are all zero
-                if c["kind"] != "single":
-                    fails.append(f"run '{name}': empty frame {fid} yields {len(got[fid])} instances")
-    # an empty frame in single-instance mode: one all-NaN instance with zero values
+                msg = f"run '{name}': empty frame {fid} yields {len(got[fid])} instances"
+                # finding F62 (exact selector): single-instance model, the frame's only instance has every node NaN
+                if (c["kind"] == "single" and len(got[fid]) == 1 and all(v == -1.0 for v in got[fid][0][0])
+                        and f62 is not None):
+                    f62.append(msg + " (one PredictedInstance whose nodes are all NaN)")
+                else:
+                    fails.append(msg)
     # max_instances keeps the highest-scoring ones
     k = c.get("max_instances")
     if k is not None:
@@ -443,6 +484,193 @@ def cmp_entries(c, name, model_batches, impl_entries):
     return out
 
 
+
+# ------------------------------------------------------------------ Flat.frun terms (bottom-up / single instance)
+SEL_F62 = "single_instance_empty_frame_nan_instance"
+PREAMBLE_F = ("From SV Require Import C12.Batch C12.Flat.\nFrom Coq Require Import List Arith QArith.\n"
+              "Import ListNotations.\n")
+
+
+def cbool(b):
+    return "true" if b else "false"
+
+
+def chunked(order, batch):
+    return [order[i:i + batch] for i in range(0, len(order), batch)]
+
+
+def bu_reference(c, runs):
+    """per frame id: (peaks (n, 2), channels (n,)) of the one-by-one unlimited run, and its instances"""
+    ref_peaks = {}
+    for d in runs["ref"]["dicts"]:
+        for key, pk in zip(d["keys"], d["peaks"]):
+            ref_peaks[runs["ref"]["back"][key]] = pk
+    ref_insts = {}
+    for fid, _, insts in runs["ref"]["records"]:
+        ref_insts.setdefault(fid, []).extend(insts)
+    return ref_peaks, ref_insts
+
+
+def bu_terms(c, runs, name, order, batch, mi, ref_peaks, ref_insts):
+    fs = []
+    for fid in order:
+        vi, fi = runs[name]["where"][fid]
+        n_pk = len(ref_peaks[fid][0])
+        assert n_pk < 32
+        pk = "; ".join(cnat(fid * 32 + j) for j in range(n_pk))
+        ins = "; ".join(f"({cnat(j)}, {core.cq(F(float(i[2])))})" for j, i in enumerate(ref_insts.get(fid, [])))
+        fs.append(f"({cnat(fi)}, {cnat(vi)}, ([{pk}], [{ins}]))")
+    mi_t = "None" if mi is None else f"(Some {cnat(mi)})"
+    terms = [f"CBu {mi_t} {cnat(batch)} [{'; '.join(fs)}]"]
+    for ch in chunked(order, batch):          # box_sample_inds of find_local_peaks, one term per assembled batch
+        terms.append(f"CBox {cnat(c['n_nodes'])} [" + "; ".join(
+            "[" + "; ".join(cnat(int(x)) for x in ref_peaks[fid][1]) + "]" for fid in ch) + "]")
+    return terms
+
+
+def calls_by_batch(run_out):
+    """crop_bboxes calls keyed by the index of the dictionary (batch) they were made for: the stub network has logged
+    all samples of batches 0..k when batch k's peaks are refined"""
+    cum, tot = {}, 0
+    for k, d in enumerate(run_out["dicts"]):
+        tot += len(d["keys"])
+        cum[tot] = k
+    out = {}
+    for n_log, n_img, inds in run_out["crop_calls"]:
+        out.setdefault(cum.get(n_log, ("?", n_log)), []).append((n_img, inds))
+    return out
+
+
+def bu_compare(c, run_out, name, models, ref_peaks, ref_insts, tie):
+    """models: [RBu of the stream, RBox per batch ...].  Returns list of differences."""
+    import numpy as np
+    diffs = []
+    m_stream, m_boxes = models[0], models[1:]
+    recs = list(run_out["records"])
+    calls = calls_by_batch(run_out)
+    if len(m_stream) != len(run_out["dicts"]):
+        return [f"run '{name}': {len(run_out['dicts'])} dictionaries, model assembles {len(m_stream)} batches"]
+    pos = 0
+    for k, (mb, d) in enumerate(zip(m_stream, run_out["dicts"])):
+        got = []
+        for key, (pk, ch) in zip(d["keys"], d["peaks"]):
+            fid = run_out["back"].get(key)
+            rp, rc = ref_peaks.get(fid, (np.zeros((0, 2)), np.zeros((0,), dtype=int)))
+            pids = []
+            for xy, cc in zip(pk, ch):
+                j = next((j for j in range(len(rp)) if rc[j] == cc and np.allclose(rp[j], xy, atol=1e-4, rtol=0)), None)
+                pids.append(-1 if j is None else fid * 32 + j)
+            rec = recs[pos] if pos < len(recs) else (None, None, [])
+            pos += 1
+            iids = ids_of(rec[2], ref_insts.get(fid, [])) if rec[1] == key else ["record of another frame"]
+            got.append([key[1], key[0], pids, [(-1 if i is None else i) for i in iids]])
+        want = [list(x) for x in mb]
+        if tie:          # equal scores: the order after the sort is the stable one, but the floats may tie differently
+            got = [[g[0], g[1], g[2], sorted(g[3])] for g in got]
+            want = [[w[0], w[1], w[2], sorted(w[3])] for w in want]
+        if got != want:
+            diffs.append(f"run '{name}' batch {k}: impl (frame_idx, video_idx, peak ids, instance ids) {got} model {want}")
+            break
+        box = m_boxes[k] if k < len(m_boxes) else None
+        cl = calls.get(k, [])
+        if c["refinement"] == "integral" and box:
+            if len(cl) != 1 or cl[0][1] != list(box) or cl[0][0] != len(d["keys"]) * c["n_nodes"]:
+                diffs.append(f"run '{name}' batch {k}: crop_bboxes calls (maps, sample_inds) {cl}, model box_sample_inds {box}")
+                break
+        elif cl:
+            diffs.append(f"run '{name}' batch {k}: crop_bboxes called {cl} but the model expects no refinement crop")
+            break
+    return diffs
+
+
+def si_reference(c, runs):
+    """per frame id: the (nodes, 2) points of the one-by-one run (None when the frame has no record)"""
+    ref = {}
+    for fid, _, insts in runs["ref"]["records"]:
+        if insts:
+            ref[fid] = insts[0][0]
+    return ref
+
+
+def si_term(c, runs, name, order, batch, ref_rows, fx):
+    import numpy as np
+    fs = []
+    for fid in order:
+        vi, fi = runs[name]["where"][fid]
+        row = ref_rows.get(fid)
+        chans = "; ".join(f"({cnat(fid * 8 + k)}, {cbool(row is not None and not np.isnan(row[k]).any())})"
+                          for k in range(c["n_nodes"]))
+        fs.append(f"({cnat(fi)}, {cnat(vi)}, [{chans}])")
+    return (f"CSi {cbool(fx)} {cbool(c['refinement'] == 'integral')} {cnat(c['n_nodes'])} {cnat(batch)} "
+            f"[{'; '.join(fs)}]")
+
+
+def si_compare(c, run_out, name, model, ref_rows):
+    import numpy as np
+    diffs = []
+    rf = c["refinement"] == "integral"
+    recs = {}
+    for fid, key, insts in run_out["records"]:
+        recs.setdefault(key, []).append(insts)
+    calls = calls_by_batch(run_out)
+    if len(model) != len(run_out["dicts"]):
+        return [f"run '{name}': {len(run_out['dicts'])} dictionaries, model assembles {len(model)} batches"]
+
+    def tag_of(fid, k, xy):
+        cands = [(fid, k)] + [(f2, k2) for f2, r in ref_rows.items() for k2 in range(len(r)) if (f2, k2) != (fid, k)]
+        for f2, k2 in cands:
+            r = ref_rows.get(f2)
+            if r is not None and np.allclose(r[k2], xy, atol=TOL, rtol=1e-5):
+                return f2 * 8 + k2
+        return -1
+
+    for kb, ((m_valid, m_recs), d) in enumerate(zip(model, run_out["dicts"])):
+        got = []
+        for key in d["keys"]:
+            fid = run_out["back"].get(key)
+            for insts in recs.get(key, []):
+                rows = []
+                for pts, _, _ in insts:
+                    row = []
+                    for k, xy in enumerate(np.asarray(pts)):
+                        if np.isnan(xy).any():
+                            row.append(None)
+                        else:
+                            t = tag_of(fid, k, xy)
+                            row.append([t, t if rf else None])
+                    rows.append(row)
+                got.append([key[1], key[0], rows])
+        want = [[r[0], r[1], [[None if e is None else [e[0], e[1]] for e in row] for row in r[2]]] for r in m_recs]
+        if got != want:
+            diffs.append(f"run '{name}' batch {kb}: impl records (frame_idx, video_idx, [per node (rough tag, patch tag)]) {got} "
+                         f"model {want}")
+            break
+        cl = calls.get(kb, [])
+        want_calls = [(len(d["keys"]) * c["n_nodes"], list(m_valid))] if m_valid else []
+        if cl != want_calls:
+            diffs.append(f"run '{name}' batch {kb}: crop_bboxes calls (maps, sample_inds = valid_idx) {cl}, model {want_calls}")
+            break
+    return diffs
+
+
+def f62_witness():
+    """a single-instance batch whose middle frame is empty (corpus/C12/F62_single_empty_frame.json)"""
+    p = core.CORPUS / "C12" / "F62_single_empty_frame.json"
+    j = json.load(open(p))
+    return case_from_json(j.get("case", j))
+
+
+def detect_f62(mods):
+    """Which variant the code has: replay the witness through the real SingleInstancePredictor.
+    True = repaired (the empty frame gives no instance)."""
+    c = f62_witness()
+    sc = build_scene(c)
+    r = run_once(c, mods, sc, list(range(len(c["frames"]))), len(c["frames"]), None)
+    got = per_frame(r)
+    empty = [f for f, a in enumerate(c["frames"]) if not a]
+    return not any(got.get(f) for f in empty)
+
+
 def check(run: core.Run) -> int:
     run.build_and_prove(PROP_FILES)
     core.impl_env_setup()
@@ -459,6 +687,7 @@ def check(run: core.Run) -> int:
     if d.exists():
         for f in sorted(d.glob("*.json")):
             j = json.load(open(f))
+            j = j.get("case", j)          # a witness may be stored in replay form {"case": {...}}
             if j.get("kind") == "centroid_only":
                 co_cases.append(CO.case_from_json(j))
             else:
@@ -470,8 +699,11 @@ def check(run: core.Run) -> int:
         for i in range(n):
             cases.append(gen_case(run.rng, len(cases), kind, mixed=i >= n - n_mix[kind]))
 
+    fixed_f62 = detect_f62(mods)
+    run.log(f"single-instance empty frame (F62): code variant = {'repaired' if fixed_f62 else 'unrepaired (one all-NaN instance)'}")
     terms, index = [], []
     sterms, sindex = [], []
+    fterms, findex = [], []
     all_runs = []
     dist = {}
     for ci, c in enumerate(cases):
@@ -500,6 +732,25 @@ def check(run: core.Run) -> int:
                                        ("mid", ids, c["batch_mid"])):
                 sterms.append(eff_term(c, runs[name], order, batch))
                 sindex.append((ci, name))
+        if not err and c["kind"] in ("bottomup", "single"):
+            # Flat.frun: the bottom-up / single-instance models fed with the one-by-one reference
+            try:
+                if c["kind"] == "bottomup":
+                    rp, ri = bu_reference(c, runs)
+                    c["_fref"] = (rp, ri)
+                    c["_tie"] = mi is not None and any(abs(a[2] - b[2]) < 1e-6 for v in ri.values()
+                                                       for x, a in enumerate(v) for b in v[x + 1:])
+                else:
+                    c["_fref"] = si_reference(c, runs)
+                for name, order, batch in (("single", ids, 1), ("batch", ids, n), ("perm", c["perm"], n),
+                                           ("mid", ids, c["batch_mid"])):
+                    ts = (bu_terms(c, runs, name, order, batch, mi, rp, ri) if c["kind"] == "bottomup"
+                          else [si_term(c, runs, name, order, batch, c["_fref"], fixed_f62)])
+                    for t in ts:
+                        fterms.append(t)
+                        findex.append((ci, name))
+            except Exception as e:      # noqa
+                c["_fterm_err"] = f"{type(e).__name__}: {e}"
         if err or c["kind"] != "topdown":
             continue
         # model: fed with the reference detections (in output order, with their centroid values)
@@ -543,6 +794,14 @@ def check(run: core.Run) -> int:
     for ix, m in zip(sindex, smodel):
         s_by_case.setdefault(ix[0], []).append((ix[1], m))
 
+    fmodel = core.coq_eval_sharded(PREAMBLE_F, fterms, "frun", "rfresult", shard=80, jobs=12) if fterms else []
+    f_by_case = {}
+    for ix, m in zip(findex, fmodel):
+        f_by_case.setdefault(ix[0], {}).setdefault(ix[1], []).append(m)
+    flat_disagreements = {"bottomup": 0, "single": 0}
+    flat_compared = {"bottomup": 0, "single": 0}
+    f62_cases = 0
+    n_logged = 0
     disagreements = 0
     scale_disagreements = 0
     ties = 0
@@ -554,8 +813,23 @@ def check(run: core.Run) -> int:
         if err:
             run.violation("failing-input", {"case": cj, "impl_error": err})
             continue
-        fails = oracle(c, runs)
+        f62 = []
+        fails = oracle(c, runs, f62)
         diffs = []
+        fdiffs = []
+        if c.get("_fterm_err"):
+            fdiffs.append("building the model term failed: " + c["_fterm_err"])
+        for name, ms in f_by_case.get(ci, {}).items():
+            try:
+                if c["kind"] == "bottomup":
+                    fdiffs += bu_compare(c, runs[name], name, ms, c["_fref"][0], c["_fref"][1], c.get("_tie"))
+                else:
+                    fdiffs += si_compare(c, runs[name], name, ms[0], c["_fref"])
+            except Exception as e:      # noqa
+                fdiffs.append(f"run '{name}': comparison raised {type(e).__name__}: {e}")
+            flat_compared[c["kind"]] += 1
+        if fdiffs:
+            flat_disagreements[c["kind"]] += 1
         n_ref = sum(len(i) for _, _, i in runs["ref"]["records"])
         run.count(f"instances_returned_one_by_one_{c['kind']}", n_ref)
         run.count(f"animals_labelled_{c['kind']}", nan_free)
@@ -595,13 +869,19 @@ def check(run: core.Run) -> int:
         sdiffs = []
         for name, m in s_by_case.get(ci, []):
             sdiffs += cmp_entries(c, name, m, runs[name]["entries"])
+        if diffs:
+            disagreements += 1            # Batch.run (top-down stream / padded table)
         if sdiffs:
             scale_disagreements += 1
             diffs += sdiffs[:2]
+        diffs += fdiffs[:2]
         if diffs:
-            disagreements += 1
-            if disagreements <= 4:
-                run.log(f"model/impl disagree on case {c['idx']}: {diffs[:2]}")
+            n_logged += 1
+            if n_logged <= 4:
+                run.log(f"model/impl disagree on case {c['idx']}: {[d[:600] for d in diffs[:2]]}")
+        if f62:
+            f62_cases += 1
+            run.violation("failing-input", {"case": cj, "oracle": f62[:6]}, selector=SEL_F62)
         if fails:
             run.violation("failing-input", {"case": cj, "oracle": fails[:6], "correspondence": diffs[:3]})
         elif diffs:
@@ -623,6 +903,18 @@ def check(run: core.Run) -> int:
         for k in ("kind", "refinement", "max_instances", "n_videos") + (("family",) if "phantoms" in str(c.get("family")) else ()):
             key = f"{k}={c.get(k)}"
             dist[key] = dist.get(key, 0) + 1
+    run.obligation("correspondence: Flat.frun CBu / CBox (Coq, vm_compute: bottomup_frames = _generate_cms_peaks split + per-sample "
+                   "grouping + all-NaN drop + max_instances sort/slice, chunked by batch size; box_sample_inds) fed with the one-by-one "
+                   "peaks / instances == real BottomUpInferenceModel out['peaks'][b] (return_paf_graph), the LabeledFrame records of "
+                   "BottomUpPredictor and the sample_inds find_local_peaks passes to crop_bboxes, every run",
+                   flat_disagreements["bottomup"] == 0 and (flat_compared["bottomup"] > 0 or not any(c["kind"] == "bottomup" for c in cases)),
+                   f"{flat_disagreements['bottomup']} cases disagree ({flat_compared['bottomup']} runs compared)")
+    run.obligation("correspondence: Flat.frun CSi (Coq, vm_compute: single_frames = find_global_peaks flatten / valid_idx / gather / "
+                   "scatter / reshape + one record per frame, variant fx detected by replaying the F62 witness) == the records of the "
+                   "real SingleInstancePredictor (every node identified with the reference node it equals) and the sample_inds "
+                   "(valid_idx) find_global_peaks passes to crop_bboxes, every run",
+                   flat_disagreements["single"] == 0 and (flat_compared["single"] > 0 or not any(c["kind"] == "single" for c in cases)),
+                   f"{flat_disagreements['single']} cases disagree ({flat_compared['single']} runs compared)")
     run.obligation("correspondence: Scale.srun (Coq, vm_compute: the batches assembled by _predict_generator, lists appended in "
                    "step, apply_sizematcher as in C02.Decode) == the (frame_idx, video_idx, eff_scale, orig_size) entries of the "
                    "dictionaries of the real Single-instance / BottomUp / TopDown predictors, every run (one by one, one batch, "
@@ -632,6 +924,8 @@ def check(run: core.Run) -> int:
                    "TopDownPredictor on every batch composition / order / batch size / max_instances, and the NaN-padded "
                    "CentroidCrop table", disagreements == 0, f"{disagreements} cases disagree")
     run.coverage.update({
+        "flat_model_runs_compared": flat_compared, "flat_model_disagreements": flat_disagreements,
+        "single_instance_variant_F62": "repaired" if fixed_f62 else "unrepaired", "cases_under_selector_F62": f62_cases,
         "input_distribution": dist, "disagreements": disagreements, **co_stats, "cases_with_equal_values_skipped_in_model_compare": ties,
         "runs_per_case": ["one by one unlimited (reference)", "one by one", "one batch", "one batch permuted",
                           "other batch size"],
@@ -645,6 +939,8 @@ def check(run: core.Run) -> int:
         "per-sample computations (peak finding, cropping, FindInstancePeaks, PAF grouping) are abstract functions in the "
         "model; that the real per-sample code is a function of the sample alone is what the oracle observes "
         "(batch vs one by one), not a theorem",
+        "a recording wrapper around sleap_nn.inference.peak_finding.crop_bboxes (installed for the duration of a bottom-up / "
+        "single-instance run, forwards to the original) is how the sample_inds of the refinement crops are observed",
         "harness/c02_stub.py ramp stub: the stub reads the frame identity from the pixels it is given, which is how "
         "'computed from the frame whose indices it carries' is observed",
     ]
